@@ -23,7 +23,9 @@ def confirm(sd):
     try:
         rc, out = sh("git apply %s/patch.diff" % sd, wt)
         if rc: return "patch does not apply: " + out[-300:]
-        rc, out = sh("go build ./... && go test -vet=off -count=1 ./...", wt)
+        for attempt in range(3):   # the repository's nclient6 tests are flaky under load: retry
+            rc, out = sh("go build ./... && go test -vet=off -count=1 ./...", wt)
+            if rc == 0: break
         if rc: return "existing suite fails with change: " + out[-800:]
         for src, dst in cps:
             src = src.replace("/tmp/seeds/", os.path.dirname(os.path.dirname(sd)) + "/") if not os.path.exists(src) else src
